@@ -107,7 +107,9 @@ def manifest(root):
 
 def scratch_dir():
     root = os.environ.get("VERIF_SCRATCH") or ("/dev/shm" if os.path.isdir("/dev/shm") else None)
-    return tempfile.mkdtemp(prefix="c09-", dir=root)
+    from hv.core import case_dir
+
+    return case_dir("c09", root)
 
 
 def gzip_of_nothing() -> bytes:
